@@ -90,6 +90,10 @@ class WebSocketCodec(BaseComponent):
             return msgs
         data = self._buffer + data
         while data:
+            # if the frame header has not arrived completely, retry after next read
+            if len(data) < 2 or len(data) < 2 + {126: 2, 127: 8}.get(data[1] & 0x7F, 0):
+                self._buffer = data
+                break
             # extract final flag, opcode and masking
             final = bool(data[0] & 0x80 != 0)
             opcode = data[0] & 0xF
